@@ -101,16 +101,17 @@ func c08Scenarios(tier string) []e1lib.Scenario {
 		maxS, maxCap = 5, 3
 	}
 	var out []e1lib.Scenario
+	bound := -1
 	add := func(c unbound.Cfg, lifo bool) {
 		pol := "fresh"
 		if lifo {
 			pol = "lifo"
 		}
 		out = append(out, e1lib.Scenario{
-			Name:     fmt.Sprintf("new cap=%d sends=%d+%d close=%v cancel=%v recv=%d pool=%s", c.Cap, c.Sends, c.Sends2, c.CloseSender, c.Cancel, c.Recv, pol),
+			Name:     fmt.Sprintf("new cap=%d sends=%d+%d close=%v cancel=%v recv=%d pool=%s%s", c.Cap, c.Sends, c.Sends2, c.CloseSender, c.Cancel, c.Recv, pol, map[bool]string{true: fmt.Sprintf(" bound=%d", bound)}[bound >= 0]),
 			Root:     func() { unbound.Scenario(c) },
 			Check:    c08Check(c),
-			PoolLIFO: lifo, Bound: -1, Sample: c, RealDone: c08Done(c, lifo),
+			PoolLIFO: lifo, Bound: bound, Deviations: bound >= 0, Sample: c, RealDone: c08Done(c, lifo),
 		})
 	}
 	for cp := 0; cp <= maxCap; cp++ {
@@ -126,6 +127,24 @@ func c08Scenarios(tier string) []e1lib.Scenario {
 			}
 		}
 	}
+	// long runs of one sender: a backlog that outgrows any small fixed-size buffer behind the queue (8, 16, 32
+	// slots) while the receiver has already taken a few values, i.e. at every head position
+	long, dev := []int{9, 17, 33}, 3
+	if tier == "thorough" {
+		long, dev = []int{9, 17, 33, 65}, 4
+	}
+	for _, s := range long {
+		for cp := 0; cp <= 1; cp++ {
+			bound = dev - s/33 // deviation bound (one less for the longest runs): the executions are 60-500 steps long and their number grows with length^bound
+			for _, cn := range []bool{false, true} {
+				for _, cl := range []bool{false, true} {
+					add(unbound.Cfg{Cap: cp, Sends: s, CloseSender: cl, Cancel: cn, Recv: -1}, true)
+				}
+			}
+			add(unbound.Cfg{Cap: cp, Sends: s, Recv: s / 2}, false)
+		}
+	}
+	bound = -1
 	for cp := 0; cp <= 1; cp++ {
 		for _, cn := range []bool{false, true} {
 			for _, s := range [][2]int{{1, 1}, {2, 1}, {2, 2}} {
